@@ -31,6 +31,9 @@ type c01Exp struct {
 	returned  map[string]bool // the ExportSpans call that carried the span has returned
 	shutdowns int
 	closedOK  bool // a Shutdown of the processor returned nil
+	// closedEarly: a provider Shutdown returned nil while another provider Shutdown was still in
+	// progress (TracerProvider.Shutdown's "already shutting down" fast path: recorded finding)
+	closedEarly bool
 	lastErr   []string
 }
 
@@ -45,6 +48,8 @@ func (e *c01Exp) ExportSpans(ctx context.Context, spans []ReadOnlySpan) error {
 	}
 	if e.closedOK {
 		x.Fail("C01|export-after-shutdown", "ExportSpans called after Shutdown had returned nil")
+	} else if e.closedEarly {
+		x.Fail("C01|export-after-shutdown|after a provider Shutdown that returned while another provider Shutdown was still in progress", "ExportSpans called after a TracerProvider.Shutdown had returned nil (another Shutdown call was still draining)")
 	}
 	if e.shutdowns > 0 {
 		x.Fail("C01|export-after-exporter-shutdown", "ExportSpans called after the exporter's Shutdown")
@@ -144,6 +149,7 @@ func c01Body(cfg c01Cfg, sc c01Scn, res *string) func(x *sched.Exec) {
 		var results []string
 		firstShutdownAt := -1 // step at which the first Shutdown call was made
 		shutdownCalls := 0
+		psInFlight := 0 // provider Shutdown calls that have not returned yet
 		shutdownFailedBefore := false // an earlier Shutdown call had already returned an error (cut short by its context)
 		checkFlush := func(what string, calledAt int, err error) {
 			results = append(results, fmt.Sprintf("%s=%v", what, err))
@@ -163,7 +169,9 @@ func c01Body(cfg c01Cfg, sc c01Scn, res *string) func(x *sched.Exec) {
 					missing = append(missing, n)
 				}
 			}
-			if what == "Shutdown" && shutdownCalls > 1 {
+			if what == "ProviderShutdownEarly" {
+				what = "provider Shutdown returning while another provider Shutdown is still in progress"
+			} else if what == "Shutdown" && shutdownCalls > 1 {
 				if shutdownFailedBefore {
 					what = "repeated Shutdown while an earlier Shutdown had not completed"
 				} else {
@@ -216,10 +224,18 @@ func c01Body(cfg c01Cfg, sc c01Scn, res *string) func(x *sched.Exec) {
 					firstShutdownAt = at
 				}
 				shutdownCalls++
+				psInFlight++
 				err := tp.Shutdown(context.Background())
-				checkFlush("Shutdown", at, err)
-				if err == nil {
-					e.closedOK = true
+				psInFlight--
+				if psInFlight > 0 && err == nil {
+					// returned while another provider Shutdown is still at work
+					checkFlush("ProviderShutdownEarly", at, err)
+					e.closedEarly = true
+				} else {
+					checkFlush("Shutdown", at, err)
+					if err == nil {
+						e.closedOK = true
+					}
 				}
 			case strings.HasPrefix(op, "E:"), strings.HasPrefix(op, "U:"):
 				n := op[2:]
@@ -299,6 +315,7 @@ func c01Scenarios(thorough bool) []c01Scn {
 		{"S7", [][]string{{"E:s1", "U:u1", "E:s2"}, {"E:s3"}}, []string{"F", "S"}},
 		{"R1", [][]string{{"RE:s1", "RE:s2"}, {"PF"}}, []string{"PS"}}, // real provider, real spans
 		{"R2", [][]string{{"RE:s1", "RE:s2", "PFc"}}, []string{"PS"}},  // provider ForceFlush cut short by its context: an error, or everything exported
+		{"R3", [][]string{{"RE:s1", "RE:s2"}, {"PS"}, {"PS"}}, nil}, // two provider Shutdown calls at once
 		{"S6", [][]string{{"S"}, {"S"}, {"E:s1"}}, nil},
 		{"S11", [][]string{{"E:s1", "E:s2", "E:s3", "S"}}, nil}, // sequential: several batches left to the shutdown drain
 	}
@@ -337,7 +354,7 @@ func TestVerifC01(t *testing.T) {
 	var jobs []string
 	for _, sc := range scs {
 		for _, c := range cfgs {
-			if (sc.name == "R1" || sc.name == "R2") && !(c.String() == "q2b1" || c.String() == "q1b1-blocking") {
+			if (sc.name == "R1" || sc.name == "R2" || sc.name == "R3") && !(c.String() == "q2b1" || (c.String() == "q1b1-blocking" && sc.name != "R3")) {
 				continue // real spans have many more scheduling points: two configurations only
 			}
 			if !thorough && (sc.name == "S4" || sc.name == "S9") && c.String() != "q1b1" {
@@ -361,7 +378,7 @@ func TestVerifC01(t *testing.T) {
 					continue
 				}
 				p, e := 1, 1
-				if sc.name == "R1" || sc.name == "R2" || sc.name == "S4" {
+				if sc.name == "R1" || sc.name == "R2" || sc.name == "R3" || sc.name == "S4" {
 					e = 0 // (quick) three threads: preemptions only
 				}
 				if thorough {
@@ -369,7 +386,7 @@ func TestVerifC01(t *testing.T) {
 					if c.q == 1 && !c.faults && !c.blocking && (sc.name == "S3" || sc.name == "S5") {
 						e = 2 // smallest configurations: one more environment deviation
 					}
-					if sc.name == "R1" || sc.name == "R2" || sc.name == "S8" || sc.name == "S2" || (c.blocking && (sc.name == "S1" || sc.name == "S4")) {
+					if sc.name == "R1" || sc.name == "R2" || sc.name == "R3" || sc.name == "S8" || sc.name == "S2" || (c.blocking && (sc.name == "S1" || sc.name == "S4")) {
 						p, e = 1, 1 // the largest drivers (3 spans + 2 flushes, blocking producers): measured > 40 CPU-minutes at (2,1)
 					}
 				}
